@@ -23,7 +23,7 @@ ASSUMPTIONS = ['SHA-384 collision resistance (a writer is model-accepted iff its
                'disk-write failures inside _write_blob are out of scope (not a peer behaviour)']
 REQUIRED_HITS = ['L1.second_download_checked', 'S1.steps_checked', 'S1.bad_only_case', 'L1.checked', 'L1.multi_writer', 'S2.callback_seen',
                  'schedule.same_iteration_double_win', 'schedule.writer_reopened_by_same_peer_in_same_iteration', 'kind.flip', 'kind.trunc_closed', 'kind.overlong_straddle',
-                 'kind.unrelated', 'kind.correct_then_closed', 'decl.length_only_claimed_by_peer', 'kind.overlong_later', 'decl.too_big', 'decl.zero', 'decl.unknown']
+                 'kind.unrelated', 'kind.correct_then_closed', 'decl.length_only_claimed_by_peer', 'L1.honest_retry_after_wrong_claims_checked', 'kind.overlong_later', 'decl.too_big', 'decl.zero', 'decl.unknown']
 MAX = 2 * 1024 * 1024
 KINDS = ['correct', 'flip', 'trunc_silent', 'trunc_closed', 'overlong_later', 'overlong_straddle', 'unrelated',
          'late_correct', 'correct_then_closed']
@@ -50,7 +50,7 @@ def gen_cases(rng, tier, shard, nshards):
         L = rng.choice(big) if i % 12 == 11 else (rng.choice(small) if rng.random() < 0.7 else rng.randrange(1, 70000))
         yield {'fam': 'rand', 'seed': rng.getrandbits(48), 'L': L}
     # declared-length edge classes, each shard a few
-    for decl in ['too_big', 'zero', 'negative', 'unknown', 'off_by_minus', 'off_by_plus', 'set_late', 'set_twice']:
+    for decl in ['too_big', 'zero', 'negative', 'unknown', 'off_by_minus', 'off_by_plus', 'set_late', 'set_twice', 'same_wrong_twice']:
         for _ in range(2 if tier == 'quick' else 20):
             yield {'fam': 'rand', 'seed': rng.getrandbits(48), 'L': rng.choice([1, 17, 1000, 5000]), 'decl': decl}
     for _ in range(6 if tier == 'quick' else 60):
@@ -271,6 +271,9 @@ async def _run(rec, r, content, kinds, decl, blobkind, steps, case):
         sets = [n + 1]
     elif decl == 'set_late':
         sets = ['late', n]
+    elif decl == 'same_wrong_twice':
+        wrong = r.choice([n + 1, n + 7, max(n - 1, 1) if n > 1 else n + 2])
+        sets = [wrong, wrong]          # two peers announce the same wrong length
     elif decl == 'set_twice':
         sets = [n, r.choice([n + 1, max(n - 1, 0), 0, MAX + 5])]    # a second, different announcement must not change it
     rec.hit('decl.' + decl)
@@ -281,7 +284,7 @@ async def _run(rec, r, content, kinds, decl, blobkind, steps, case):
     blob = Mon(loop, blob_hash, ctor_len, completed, bdir)
     blob.verified = MonEvent(events, 'verified')
     late_set = None
-    claimed = r.random() < 0.7
+    claimed = r.random() < 0.7 or decl == 'same_wrong_twice'
     for s in sets:
         if s == 'late':
             late_set = True
@@ -540,6 +543,38 @@ async def _run(rec, r, content, kinds, decl, blobkind, steps, case):
             rec.hit('S2.callback_seen')
         else:
             rec.violation('C01/L1/completion-not-announced', 'blob verified but the completion callback never fired', {'kinds': kinds, 'events': events[-20:]})
+    # ---- every attempt failed under a length that was only what peers had announced: once they are all over, an honest peer announcing
+    # the true length must be able to deliver the blob (added after seeded break C01-H: the same wrong length announced twice stuck)
+    if ok and not accepted_any and claimed and decl in ('off_by_minus', 'off_by_plus', 'same_wrong_twice') and len(content) <= 70000:
+        for w in writers:
+            if not w.closed():
+                w.close_handle()               # the connections of the failed attempts end
+        await _drain(4)
+        rec.hit('L1.honest_retry_after_wrong_claims_checked')
+        if blob.get_length() is None:
+            try:
+                blob.length_claimed_by_peer = True
+            except AttributeError:
+                pass
+        blob.set_length(len(content))
+        try:
+            wh = blob.get_blob_writer('10.0.7.7', 3333)
+            for c in chunk(r, content, 'rand'):
+                if wh.closed():
+                    break
+                wh.write(c)
+        except Exception as e:  # noqa
+            exc_types.add(type(e).__name__ + '@honest-retry')
+        await _drain(4)
+        if write_tasks:
+            await asyncio.wait(write_tasks, timeout=60)
+        await _drain(4)
+        if not blob.get_is_verified():
+            rec.violation('C01/L1/not-verified-after-correct-copy/honest-peer-after-failed-attempts-under-a-wrong-claimed-length',
+                          f'peers had announced length {sets} for a {len(content)}-byte blob of unknown length and all their attempts failed; an '
+                          f'honest peer announcing {len(content)} then delivered the complete correct copy but the blob is not verified '
+                          f'(length is now {blob.get_length()})', {'decl': decl, 'announced': [x for x in sets if isinstance(x, int)],
+                                                                   'kinds': kinds, 'exc': sorted(exc_types)})
     # ---- second life of the same blob object (added after seeded break C01-C): once it is not verified any more - deleted, or a
     # BlobBuffer read through its one-shot reader - a later complete correct copy must verify it again
     if ok and accepted_any and not rec.violations and case.get('fam') in ('rand', 'doublewin') and n <= 70000:
